@@ -36,6 +36,8 @@ pub enum FuOp {
     Advance { secs: u64 },
     /// locked deposit through the pool manager (the only delegate)
     ProvideLock { u: usize, lp: usize, amount: u128, dur: u64, lock_id: Option<String> },
+    /// the same through a single-asset deposit (swap half, then the pool manager calls itself)
+    ProvideLockSingle { u: usize, lp: usize, amount: u128, dur: u64, lock_id: Option<String> },
     SetPenalty { u: usize, pct: u64 },
     SetFarmFee { u: usize, denom: String, amt: u128 },
 }
@@ -115,7 +117,7 @@ fn observe_opt(w: &World, weights: bool) -> FuObs {
     let lps = lps(w);
     let mut wraw = BTreeMap::new();
     for (ai, a) in accs.iter().enumerate() {
-        if ai == PM || ai == FC || !weights {
+        if ai == FC || !weights {
             continue;
         }
         for (li, lp) in lps.iter().enumerate() {
@@ -188,6 +190,10 @@ pub fn apply(w: &mut World, op: &FuOp) -> Outcome {
         FuOp::ProvideLock { u, lp, amount, dur, lock_id } => {
             let (id, d) = if *lp == 0 { ("o.a", ["uom", "uusd"]) } else { ("o.b", ["uusdc", "uom"]) };
             w.exec(&user(w, *u), &pma, &pm::ExecuteMsg::ProvideLiquidity { liquidity_max_slippage: None, swap_max_slippage: None, receiver: None, pool_identifier: id.into(), unlocking_duration: Some(*dur), lock_position_identifier: lock_id.clone() }, &[coin(*amount, d[0]), coin(*amount, d[1])])
+        }
+        FuOp::ProvideLockSingle { u, lp, amount, dur, lock_id } => {
+            let (id, d) = if *lp == 0 { ("o.a", "uom") } else { ("o.b", "uusdc") };
+            w.exec(&user(w, *u), &pma, &pm::ExecuteMsg::ProvideLiquidity { liquidity_max_slippage: None, swap_max_slippage: Some(Decimal::percent(50)), receiver: None, pool_identifier: id.into(), unlocking_duration: Some(*dur), lock_position_identifier: lock_id.clone() }, &[coin(*amount, d)])
         }
         FuOp::SetPenalty { u, pct } => w.exec(&user(w, *u), &fma, &upd(None, Some(Decimal::percent(*pct))), &[]),
         FuOp::SetFarmFee { u, denom, amt } => w.exec(&user(w, *u), &fma, &upd(Some(coin(*amt, denom)), None), &[]),
@@ -327,7 +333,7 @@ pub fn ghost_step(w: &World, g: &FuGhost, op: &FuOp, pre: &FuObs, post: &FuObs, 
     // positions model: mirror what the operation is supposed to do, from the operation itself
     let owner_of = |a: &Addr| acc_index(w, a).unwrap_or(usize::MAX);
     match op {
-        FuOp::CreatePos { .. } | FuOp::ProvideLock { .. } | FuOp::ExpandPos { .. } | FuOp::ClosePos { .. } | FuOp::WithdrawPos { .. } => {
+        FuOp::CreatePos { .. } | FuOp::ProvideLock { .. } | FuOp::ProvideLockSingle { .. } | FuOp::ExpandPos { .. } | FuOp::ClosePos { .. } | FuOp::WithdrawPos { .. } => {
             // re-read the table of positions (identifiers are assigned by the contract); the oracles
             // compare pre/post tables against the rules, the ghost keeps the table for later steps
             g.pos = post.positions.iter().map(|p| (p.identifier.clone(), GPos { owner: owner_of(&p.receiver), lp: p.lp_asset.denom.clone(), amount: p.lp_asset.amount.u128(), dur: p.unlocking_duration, open: p.open, expiring_at: p.expiring_at })).collect();
@@ -365,7 +371,7 @@ pub fn ghost_step(w: &World, g: &FuGhost, op: &FuOp, pre: &FuObs, post: &FuObs, 
                 FuOp::ExpandPos { lp, .. } => {
                     g.pieces.insert(*lp);
                 }
-                FuOp::ProvideLock { lp, lock_id: Some(_), .. } => {
+                FuOp::ProvideLock { lp, lock_id: Some(_), .. } | FuOp::ProvideLockSingle { lp, lock_id: Some(_), .. } => {
                     g.pieces.insert(*lp);
                 }
                 _ => {}
@@ -552,6 +558,8 @@ pub fn enabled(c: &FuChecker, w: &World, pre: &FuObs, g: &FuGhost) -> Vec<FuOp> 
                             // explicit identifiers that collide with existing (open, closed, other users') positions
                             ops.push(FuOp::CreatePos { u, lp, amount: 5, dur: DAY, id: Some("1".into()), recv: None });
                             ops.push(FuOp::CreatePos { u, lp, amount: 5, dur: DAY, id: Some("k".into()), recv: None });
+                            // the pool manager as delegate: locked deposit creating a position
+                            ops.push(FuOp::ProvideLock { u, lp, amount: 5000, dur: DAY, lock_id: None });
                         }
                         _ => {
                             ops.push(pos(u, lp, 1000, DAY));
@@ -580,8 +588,11 @@ pub fn enabled(c: &FuChecker, w: &World, pre: &FuObs, g: &FuGhost) -> Vec<FuOp> 
                             ops.push(FuOp::ClosePos { u, id: p.identifier.clone(), partial: Some((li, amt - 1)) });
                         }
                     }
-                    if a == FAlpha::Full {
+                    if matches!(a, FAlpha::Full | FAlpha::Positions) {
+                        // the pool manager tops up this position on behalf of its owner
                         ops.push(FuOp::ProvideLock { u, lp: li, amount: 5000, dur: p.unlocking_duration, lock_id: Some(p.identifier.clone()) });
+                    }
+                    if a == FAlpha::Full {
                         ops.push(FuOp::ClosePos { u, id: p.identifier.clone(), partial: Some((li, amt + 1)) });
                     }
                 }
@@ -592,6 +603,12 @@ pub fn enabled(c: &FuChecker, w: &World, pre: &FuObs, g: &FuGhost) -> Vec<FuOp> 
                 if matches!(a, FAlpha::Full | FAlpha::Positions) {
                     // the other user tries to manage this position
                     let o = if u == A { B } else { A };
+                    if p.open {
+                        // ... including through the pool manager (balanced and single-asset locked deposits into it)
+                        ops.push(FuOp::ProvideLock { u: o, lp: li, amount: 5000, dur: p.unlocking_duration, lock_id: Some(p.identifier.clone()) });
+                        ops.push(FuOp::ProvideLockSingle { u: o, lp: li, amount: 10_001, dur: p.unlocking_duration, lock_id: Some(p.identifier.clone()) });
+                        ops.push(FuOp::ProvideLockSingle { u, lp: li, amount: 10_001, dur: p.unlocking_duration, lock_id: Some(p.identifier.clone()) });
+                    }
                     ops.push(FuOp::ExpandPos { u: o, id: p.identifier.clone(), lp: li, amount: 3 });
                     ops.push(FuOp::ClosePos { u: o, id: p.identifier.clone(), partial: None });
                     ops.push(FuOp::WithdrawPos { u: o, id: p.identifier.clone(), emergency: Some(true) });
@@ -637,6 +654,8 @@ pub fn enabled(c: &FuChecker, w: &World, pre: &FuObs, g: &FuGhost) -> Vec<FuOp> 
             if on_lp < 3 {
                 ops.push(farm_op(fee, C, lp, Some(cur + 1), Some(cur + 3), (rd, 2000), None));
                 if matches!(a, FAlpha::Full | FAlpha::Farms) {
+                    // a long, small farm: emission 20/epoch with 40 units of rounding dust in the budget
+                    ops.push(farm_op(fee, C, lp, Some(cur + 1), Some(cur + 49), (rd, 1000), Some("d")));
                     ops.push(farm_op(fee, C, lp, Some(cur + 2), Some(cur + 6), (rd, 4000), Some("x")));
                     ops.push(farm_op(fee, OWNER, lp, None, None, (rd, 14_000), None));
                 }
